@@ -76,6 +76,14 @@ func ParseContractFile(path, pkgPath string) ([]*Contract, error) {
 	if err != nil {
 		return nil, err
 	}
+	return ParseContractSource(string(b), path, pkgPath)
+}
+
+// ParseContractSource parses //@ lines from source text (used for files and for schema-generated contracts).
+func ParseContractSource(src, path, pkgPath string) ([]*Contract, error) {
+	b := []byte(src)
+	var err error
+	_ = err
 	var out []*Contract
 	var cur *Contract
 	type pending struct {
